@@ -184,6 +184,9 @@ func (g *Gen) addObl(kind, label string, st *State, goal string, pos token.Pos) 
 
 func (g *Gen) safety(kind string, st *State, goal string, pos token.Pos) {
 	if g.ct != nil && !g.ct.NoPanic {
+		// absence of panics is not claimed for this function; execution still continues past the operation only if it did not
+		// panic, so the condition may be assumed for what follows (partial correctness)
+		g.sc.assume(st.pc, goal)
 		return
 	}
 	label := g.srcLine(pos)
